@@ -425,6 +425,7 @@ def run_det_case(c, timeout_s=120.0):
       det      <stdin> <threads,threads,...> <files> <argv...>   every run (`-t n` appended) gives the same bytes
       detchain <stdin> <fmt,fmt,...,fmt>                          reformat chain back to the first format
       detboot  <stdin> <model> <n> <frac num/den> <seed> <threads> seqboot + compute distance = distboot
+      detmulti <aln;;aln;;...> <files> <argv...>                  multi-alignment input = the alignments one by one
     Result: `same rc=<rc> out=<bytes> files=<k>` or `differ <where> ...`."""
     try:
         stdin = b"" if c.args[0] == "_" else _unesc(c.args[0])
@@ -438,6 +439,33 @@ def run_det_case(c, timeout_s=120.0):
                     return
             r = runs[0]
             c.impl = "same rc=%s out=%d files=%d" % (r[0], len(r[1]), len(r[3]))
+        elif c.op == "detmulti":
+            # detmulti <alignment;;alignment;;...> <files> <argv...>: a command that treats the alignments of a multi-alignment
+            # Phylip input one after the other must print (and write to each output file) the concatenation of what it
+            # prints for each alignment alone
+            parts = [p for p in c.args[0].split(";;") if p]
+            files = _files(c.args[1])
+            argv = [str(a) for a in c.args[2:]]
+            whole = exec_goalign(argv, b"".join(_unesc(p) for p in parts), files, timeout_s)
+            each = [exec_goalign(argv, _unesc(p), files, timeout_s) for p in parts]
+            if any(r[0] != 0 for r in each) or whole[0] != 0:
+                # an error on one alignment stops the command: only the exit status is compared
+                bad = next((r[0] for r in each if r[0] != 0), 0)
+                c.impl = "same rc=%s out=0 files=0" % whole[0] if (whole[0] != 0) == (bad != 0) else \
+                    "differ exit-status whole=%s alone=%s" % (whole[0], [r[0] for r in each])
+                return
+            exp_out = b"".join(r[1] for r in each)
+            if whole[1] != exp_out:
+                c.impl = "differ stdout whole=%s concatenated=%s" % (hashlib.sha1(whole[1]).hexdigest()[:12], hashlib.sha1(exp_out).hexdigest()[:12])
+                return
+            names = set(whole[3])
+            for r in each:
+                names |= set(r[3])
+            for nm in sorted(names):
+                if whole[3].get(nm, b"") != b"".join(r[3].get(nm, b"") for r in each):
+                    c.impl = "differ file:%s" % nm
+                    return
+            c.impl = "same rc=0 out=%d files=%d" % (len(whole[1]), len(whole[3]))
         elif c.op == "detchain":
             chain = c.args[1].split(",")
             r0 = exec_goalign(["reformat", chain[0]], stdin, {}, timeout_s)
